@@ -220,7 +220,7 @@ func (env *SpecEnv) evalIdent(name string) Val {
 		return env.loadPtr(p)
 	}
 	// hidden loop state: $idx (range-over-slice index), $seen (set of keys already visited by a range-over-map)
-	if name == "$idx" || name == "$seen" {
+	if name == "$idx" || name == "$seen" || name == "$count" {
 		var cands []*Loop
 		if env.lp != nil {
 			cands = append(cands, env.lp)
@@ -239,12 +239,15 @@ func (env *SpecEnv) evalIdent(name string) Val {
 				}
 				return mkInt("(- 1)")
 			}
-			if name == "$seen" && l.MapRange != nil {
+			if (name == "$seen" || name == "$count") && l.MapRange != nil {
 				iters := env.st.iters
 				if env.cur != nil {
 					iters = env.cur.Iters
 				}
 				if it, ok := iters[l.MapRange]; ok {
+					if name == "$count" {
+						return mkInt(it.Count)
+					}
 					return Val{T: &SetT{it.MapT.Key()}, Terms: []string{it.Seen}}
 				}
 			}
@@ -284,7 +287,11 @@ func (env *SpecEnv) evalIdent(name string) Val {
 	}
 	// named local of the function
 	if env.fn != nil {
-		if a := env.st.eng.localByName(env.fn, name); a != nil {
+		scope := env.lp
+		if scope == nil && len(env.st.loops) > 0 {
+			scope = env.st.loops[len(env.st.loops)-1].L
+		}
+		if a := env.st.eng.localByNameAt(env.fn, name, scope); a != nil {
 			var cells map[*ssa.Alloc]Val
 			if env.cur != nil {
 				cells = env.cur.Cells
